@@ -347,6 +347,10 @@ def run(rep, tier, seed, proof_ok, rng):
     # the offending call visible to the run-time checks only, under the exception handlers of user code and helper libraries
     import c11_dynamic
     c11_dynamic.run(rep, tier, seed, proof_ok, rng)
+    # the offending calls in structurally identical / shared sub-trees (same callee, same arguments; twin functions, sibling
+    # methods, a helper reached twice): whatever the analysis de-duplicates by signature must not hide an offence
+    import c11_shared
+    c11_shared.run(rep, tier, seed, proof_ok, rng)
     rep.extra["program_part"] = {"call_graphs": len(good), "call_graphs_with_positions": sum(1 for r in good if r["graph"].get("positions")), "verdicts": verdicts, "overlap_evaluations": len(ocases), "overlap_root_path": len(rcases)}
 
 
@@ -357,6 +361,9 @@ def replay(r):
     if r.get("dynamic_sweep"):
         import c11_dynamic
         return c11_dynamic.replay(r)
+    if r.get("shared_sweep"):
+        import c11_shared
+        return c11_shared.replay(r)
     print(json.dumps({k: r[k] for k in r if k != "src"}, indent=1)[:2000])
     print("replay: re-run ./check C11 quick with the same seed; sources are in the replay file")
     return 1
